@@ -148,7 +148,8 @@ def check(pid, tier, seed, only, workers, verbose, write_evidence=True):
             harness_errors.append('%s: engine error: %s' % (h.name, agg['engine_errors'][0][-600:]))
         if not agg['exhaustive']:
             exhaustive_all = False
-            inconclusive.append('%s/path-budget' % h.name)
+            if not agg.get('stopped_on_cex'):
+                inconclusive.append('%s/path-budget' % h.name)
         if by_status.get('timeout'):
             exhaustive_all = False
             inconclusive.append('%s/path-timeout(%d)' % (h.name, by_status['timeout']))
